@@ -136,7 +136,7 @@ def spec_decode(text, atts):
 
 
 # ------------------------------------------------------------------ the bounded grammar
-LEAVES = [None, True, 0, -3, 17, 2.5, '', 'a', 'a,b', '1-', '/x,', 'é"\\\n', b'', b'x', b'\x00\xff']
+LEAVES = [None, True, 0, -3, 17, 2.5, '', 'a', 'a,b', '1-', '/x,', 'why?',  'é"\\\n', b'', b'x', b'\x00\xff']
 PLAIN = [x for x in LEAVES if not isinstance(x, bytes)]
 KEYS = ['k', '', 'num', '_placeholder']
 
